@@ -154,7 +154,13 @@ public:
    }
    Line& raw(const char* k, const std::string& json) { key(k); buf += json; return *this; }
    std::string done() const { return buf + "}"; }
-   void emit(FILE* f = stdout) const { std::string s = done(); s += '\n'; fwrite(s.data(), 1, s.size(), f); }
+   // per-thread sink: when set, events are appended to it instead of being written to stdout
+   static std::string*& sink() { static thread_local std::string* s = nullptr; return s; }
+   void emit(FILE* f = stdout) const {
+      std::string s = done(); s += '\n';
+      if (sink() != nullptr) { sink()->append(s); return; }
+      fwrite(s.data(), 1, s.size(), f);
+   }
 private:
    std::string buf; bool first = true;
    void key(const char* k) { if (!first) buf += ','; first = false; buf += '"'; buf += k; buf += "\":"; }
